@@ -130,6 +130,7 @@ def run_map(
         Whether to display a progress bar. Only works if ``parallel=True``.
 
     """
+    called_pipeline = pipeline
     pipeline, run_info, store, outputs, parallel, executor, progress = prepare_run(
         pipeline=pipeline,
         inputs=inputs,
@@ -160,6 +161,9 @@ def run_map(
                     progress=progress,
                     cache=pipeline.cache,
                 )
+    except Exception:
+        _expose_error_snapshots(pipeline, called_pipeline)
+        raise
     finally:
         # Also when a function raised: results computed so far stay loadable from the run folder
         _maybe_persist_memory(store, persist_memory)
@@ -274,6 +278,7 @@ def run_map_async(
         Whether to display a progress bar.
 
     """
+    called_pipeline = pipeline
     pipeline, run_info, store, outputs, _, executor_dict, progress = prepare_run(
         pipeline=pipeline,
         inputs=inputs,
@@ -308,6 +313,9 @@ def run_map_async(
                         cache=pipeline.cache,
                         multi_run_manager=multi_run_manager,
                     )
+        except Exception:
+            _expose_error_snapshots(pipeline, called_pipeline)
+            raise
         finally:
             # Also when a function raised: results computed so far stay loadable from the run folder
             _maybe_persist_memory(store, persist_memory)
@@ -322,6 +330,17 @@ def run_map_async(
         if multi_run_manager is not None:
             multi_run_manager.display()
     return AsyncMap(task, run_info, progress, multi_run_manager)
+
+
+def _expose_error_snapshots(executed: Pipeline, called: Pipeline) -> None:
+    # With `output_names` or `auto_subpipeline`, `prepare_run` executes a subpipeline that holds
+    # *copies* of the functions. Expose their error snapshots on the pipeline `map` was called on.
+    if executed is called:
+        return
+    output_to_func = called.output_to_func
+    for func in executed.functions:
+        if func.error_snapshot is not None and func.output_name in output_to_func:
+            output_to_func[func.output_name].error_snapshot = func.error_snapshot
 
 
 def _maybe_persist_memory(
